@@ -120,10 +120,12 @@ func (tb *LTable) Remove(pos int) LValue {
 	if tb.array == nil {
 		return LNil
 	}
-	larray := len(tb.array)
+	larray := tb.Len()
 	if larray == 0 {
 		return LNil
 	}
+	// drop trailing nil slots: the list ends at position #t, not at len(tb.array)
+	tb.array = tb.array[:larray]
 	i := pos - 1
 	oldval := LNil
 	switch {
